@@ -13,7 +13,7 @@ CLAIMS = {
          "negation of the full statement (witnesses incl. the input a repository test pins). System level (C03W.swap_product): every successful swap through any entry point that is not in the window keeps the product of the pair's actual reserves and keeps positive reserves positive. Correspondence: compute_swap family with an in-window solver, world families swap/route. "
          "The full property is false of the code (known finding KF-SWAP-WINDOW); a proof is the right level because the failing region has relative width 1e-18.",
          "§6 C01, §7 D1", "Lean 4 proof (closed form + window characterisation) + differential correspondence"),
- "C04": ("Lean theorems: refund bracket r·a/S − r/1e18 − 1 < x ≤ r·a/S, refund ≤ reserve, totality on legal burns, exact success characterisation. "
+ "C04": ("Lean theorems: refund bracket r·a/S − r/1e18 − 1 < x ≤ r·a/S, refund ≤ reserve, totality on legal burns, exact success characterisation, monotonicity in burn amount and in reserve, superadditivity (splitting a burn never pays more). "
          "Correspondence: refund family (the arithmetic of withdraw_liquidity) on 128-bit stratified operands.",
          "§6 C04", "Lean 4 proof (floor-division bounds) + differential correspondence"),
  "C05": ("Lean theorems: share bracket on positive supply, exact min formula, empty-pair gate (whitelist, minimums, ⌊√(d0·d1)⌋), success characterisation. "
